@@ -91,7 +91,9 @@ def main():
     # without an installed scheduler simsync.RWMutex is a plain sync.RWMutex
     simsync = 'simsync "github.com/aergoio/aergo/v2/zz_verif/simsync"'
     rewrite("mempool/mempool.go", [(r"eTime := time\.Now\(\)", "eTime := simclock.Now()", 1),
-                                   (r"(?m)^\tsync\.RWMutex\n\tcfg \*cfg\.Config$", "\tsimsync.RWMutex\n\tcfg *cfg.Config", 1)],
+                                   (r"(?m)^\tsync\.RWMutex\n\tcfg \*cfg\.Config$", "\tsimsync.RWMutex\n\tcfg *cfg.Config", 1),
+                                   # the producer fetch walks the pool in Go map order; under simulation a seeded order
+                                   (r"(?m)^Gather:\n\tfor _, list := range mp\.pool \{$", "Gather:\n\tfor _, list := range verifPoolOrder(mp.pool) {", 2)],
             simclock + "\n\t" + simsync)
     # a panic below the chain manager must surface as a Go panic, not end the simulator process
     rewrite("chain/recover.go", [(r"os\.Exit\(10\)", 'panic(fmt.Sprint("verif: RecoverExit: ", r))', 1),
